@@ -45,7 +45,7 @@ def describe(rep):
         'LogGlobalErrorPostIter, LogLocalErrorPostIter, LogGlobalErrorPostRun, LogExtrapolationErrorEstimate, LogEmbeddedErrorEstimate registered after its subclass ...PostIter. (c) registration (ENUMERATED, concrete): for all ordered pairs of the '
         'shipped hook classes (found by introspection) and both routes (hook_class list, add_hook) each requested class is registered exactly once.'
     )
-    rep.rule = 'case = path of filter_stats on a symbolic dictionary / one explored history of the real controller (runs from time 0 and from negative / other start times)'
+    rep.rule = 'case = path of filter_stats on a symbolic dictionary / one explored history of the real controller (runs from time 0 and from negative / other start times; several runs on one controller with the shipped recording hooks)'
     rep.assume('dictionary keys are pairwise distinct (contract of a dict)', 'restart generations 0..2 and the entry types are enumerated, not symbolic',
                'histories: fixed exactly representable dt; restart requests injected symbolically')
     rep.out_of_scope('LogSolutionAfterIteration (shares the type u with LogSolution)', 'values of the timing hooks', 'file-writing hooks (LogToFile, pickle)', 'MPI gathering of statistics', 'more than 4 dictionary entries')
